@@ -42,7 +42,7 @@ ResetModel ==
 TReset == More /\ Ev.ev = "Reset" /\ ResetModel /\ l' = l + 1 /\ live' = TRUE /\ total' = total + 1 /\ good' = good
 TEnd == More /\ Ev.ev = "EndScenario" /\ l' = l + 1 /\ live' = FALSE /\ total' = total
         /\ good' = (IF live THEN good + 1 ELSE good) /\ UNCHANGED vars
-TOther == More /\ (Ev.ev \in {"Wake", "Panic"} \/ (~live /\ Ev.ev \notin {"Reset", "EndScenario"}))
+TOther == More /\ (Ev.ev \in {"Wake", "Panic", "Exhaust"} \/ (~live /\ Ev.ev \notin {"Reset", "EndScenario"}))
           /\ l' = l + 1 /\ UNCHANGED <<vars, ctl>>
 
 TArrive == Is("Arrive") /\ Ev.k \in Keys /\ Arrive(Ev.k) /\ nextCh' = Ev.ch /\ Consume
@@ -61,7 +61,7 @@ TStreamEnd == Is("StreamEnd") /\ pc = "match" /\ lres = "end" /\ cres = "pending
 Explained == TArrive \/ TClose \/ TListenerEnd \/ SBegin \/ SListener \/ TShed \/ SClosed \/ SMatchLoop
              \/ TYield \/ TPending \/ TStreamEnd
 (* nothing in the specification explains the next event *)
-TDiverge == /\ More /\ live /\ Ev.ev \notin {"Reset", "EndScenario", "Wake", "Panic"}
+TDiverge == /\ More /\ live /\ Ev.ev \notin {"Reset", "EndScenario", "Wake", "Panic", "Exhaust"}
             /\ ~ENABLED Explained
             /\ PrintT(<<"MECH", Ev.scn, l, "event not explained by the specification", <<Ev.ev, pc, lres, cres, woken>>>>)
             /\ live' = FALSE /\ UNCHANGED <<vars, l, total, good>>
